@@ -27,6 +27,11 @@ def random_script(su, sch, rng, ncalls, runner, max_elems=5, terminates=True):
     prog = su.prog
     muts, queries = api(su, sch)
     lines = []
+    if not muts:
+        emit_lines = ["close", "dump"]          # a theory without any type or relation: nothing to call
+        for l in emit_lines:
+            runner.run_line(l)
+        return emit_lines
 
     def count(t):
         return runner.m.f[t + "_equalities"].f["parents"].n
@@ -94,6 +99,8 @@ def validate(su, sch, harness, name, seed, nscripts, ncalls, U=10, terminates=Tr
         try:
             script = random_script(su, sch, rng, ncalls, r, terminates=terminates)
         except Exception as ex:
+            if [m for g, k, m in r.ctx.events if g == T and k == "bound"]:
+                continue        # the script left the interpreter's bounds (universe / iterations) before the failure: not comparable
             bad.append((None, "interpreter failed: %r" % ex))
             continue
         bounds = [m for g, k, m in r.ctx.events if g == T and k == "bound"]
